@@ -12,26 +12,29 @@ fn any_entry() -> LruFileEntry {
 }
 
 macro_rules! lru_single_byte {
-    ($name:ident, $n:expr) => {
+    ($name:ident, $n:expr, $unw:expr) => {
         #[kani::proof]
-        #[kani::unwind(98)]
+        #[kani::unwind($unw)]
         #[kani::stub(md5_compute_real, ideal::md5_compute_ideal)]
         fn $name() {
             const N: usize = $n;
             const LEN: usize = LRU_HEADER_SIZE + N * LRU_ENTRY_SIZE;
             let header = LruFileHeader { version: kani::any(), hash: kani::any(), mru_head: kani::any(), lru_tail: kani::any() };
             kani::assume(header.version <= 1);
-            let mut es = [LruFileEntry::empty(); N];
+            // (array of at least one element, sliced to N: iterating a zero-length *array* leaves the
+            // slice iterator's end test undecided for CBMC and the writer's loop unrolls to the bound)
+            let mut es_all = [LruFileEntry::empty(); if N == 0 { 1 } else { N }];
             let mut i = 0;
             while i < N {
-                es[i] = any_entry();
+                es_all[i] = any_entry();
                 i += 1;
             }
+            let es = &es_all[..N];
             let p: usize = kani::any();
             kani::assume(p < LEN);
             let v: u8 = kani::any();
 
-            let mut data = serialize(&header, &es);
+            let mut data = serialize(&header, es);
             assert!(data.len() == LEN, "serialized length = header + n entries");
             kani::cover!(p == 1, "version high byte corrupted");
             kani::cover!(p == 19, "last byte of the stored hash corrupted");
@@ -50,9 +53,9 @@ macro_rules! lru_single_byte {
 // @encodes cascette_client_storage::lru::lru_file::serialize, cascette_client_storage::lru::lru_file::deserialize, cascette_client_storage::lru::lru_file::LruFileHeader::from_bytes, cascette_client_storage::lru::lru_file::LruFileHeader::to_bytes, cascette_client_storage::lru::lru_file::LruFileEntry::to_bytes, cascette_client_storage::lru::lru_file::validate_file_size
 // @assumes md5::compute is an ideal hash (uninterpreted, injective on the recorded messages incl. their length, all 128 digest bits)
 // @catches hash computed over the header only / over a prefix, hash compared on a prefix of the 16 bytes, hash check skipped or done on the wrong buffer, hash field not zeroed consistently
-lru_single_byte!(c07_lru_file_single_byte_n0, 0);
-lru_single_byte!(c07_lru_file_single_byte_n1, 1);
-lru_single_byte!(c07_lru_file_single_byte_n2, 2);
+lru_single_byte!(c07_lru_file_single_byte_n0, 0, 18);
+lru_single_byte!(c07_lru_file_single_byte_n1, 1, 18);
+lru_single_byte!(c07_lru_file_single_byte_n2, 2, 18);
 // @end
 
 // Truncation (by one byte and by one whole entry) and extension (by one byte, by one entry).
@@ -62,7 +65,7 @@ lru_single_byte!(c07_lru_file_single_byte_n2, 2);
 // @assumes md5::compute is an ideal hash (injective incl. message length)
 // @catches size check `>=`/modulus wrong, hash computed over a length taken from the header instead of the data, trailing entries ignored by the hash
 #[kani::proof]
-#[kani::unwind(98)]
+#[kani::unwind(18)]
 #[kani::stub(md5_compute_real, ideal::md5_compute_ideal)]
 fn c07_lru_file_truncate_extend() {
     const LEN: usize = LRU_HEADER_SIZE + 2 * LRU_ENTRY_SIZE;
@@ -79,16 +82,8 @@ fn c07_lru_file_truncate_extend() {
     let r2 = deserialize(&data[..LEN - LRU_ENTRY_SIZE]);
     assert!(r2.is_none(), "file cut by one entry accepted");
     let mut big = [0u8; LEN + LRU_ENTRY_SIZE];
-    let mut i = 0;
-    while i < LEN {
-        big[i] = data[i];
-        i += 1;
-    }
-    let mut i = 0;
-    while i < LRU_ENTRY_SIZE {
-        big[LEN + i] = ext[i];
-        i += 1;
-    }
+    big[..LEN].copy_from_slice(&data);
+    big[LEN..].copy_from_slice(&ext);
     let r3 = deserialize(&big[..LEN + 1]);
     assert!(r3.is_none(), "file extended by one byte accepted");
     let r4 = deserialize(&big);
